@@ -304,7 +304,10 @@ func extractC20Run(repo, out string) error {
 	if err := os.WriteFile(filepath.Join(out, "C20Run.lean"), []byte(sb.String()), 0o644); err != nil {
 		return err
 	}
-	return extractC20MsgLoad(cfg, repo, out)
+	if err := extractC20MsgLoad(cfg, repo, out); err != nil {
+		return err
+	}
+	return extractC20Handlers(cfg, repo, out)
 }
 
 // ---------------------------------------------------------------------------------------------------------------
